@@ -378,6 +378,20 @@ def main(tier, seed, replay=None):
                     data_X=ds["X"].tolist(), data_y=ds["y"].tolist())
         try:
             clf = SPNClassifier(dist_classes(ds["kinds"]), **kw)
+            if i % 3 == 1:
+                # a second-hand estimator: fitted on other data (other class frequencies, possibly fewer classes), queried,
+                # then fitted again on the data of this case: it must behave like a fresh one
+                y_all = ds["y"]; cl = np.unique(y_all)
+                keep = np.ones(len(y_all), bool)
+                keep &= ~((y_all == cl[0]) & (rs.rand(len(y_all)) < 0.7))
+                if len(cl) >= 3:
+                    keep &= (y_all != cl[-1])
+                if keep.sum() >= 10 and len(np.unique(y_all[keep])) >= 2:
+                    clf.fit(ds["X"][keep].copy(), y_all[keep].copy())
+                    with np.errstate(all="ignore"):
+                        clf.predict_proba(ds["X"][keep][:3].copy()); clf.predict(ds["X"][keep][:3].copy())
+                    info["history"] = "fit on a sub-sample with other class frequencies, predict_proba, fit again"
+                    dist["refitted"] = dist.get("refitted", 0) + 1
             clf.fit(ds["X"].copy(), ds["y"].copy())
         except Exception as e:      # the learner's own failures are C04's subject, not the facade's
             dist["fit_raised"] += 1
